@@ -31,6 +31,8 @@ op = st.fixed_dictionaries({'op': st.sampled_from(['claim', 'claim', 'release', 
                                                    'raise', 'raise']),
                             'c': st.integers(0, 3), 'e': st.integers(0, 7), 'grant': st.booleans()})
 history = st.fixed_dictionaries({'clients': st.integers(1, 4),
+                                 'naming': st.sampled_from(['K', 'K', 'prefix-desc', 'prefix-asc',
+                                                            'reverse']),
                                  'policy': st.sampled_from(['honest', 'honest', 'arbitrary']),
                                  'ops': st.lists(op, min_size=1, max_size=40)})
 
@@ -55,7 +57,8 @@ class McFacts:
 def interpret(facts, hist):
     """history -> (script, expectations).  The reference claim model runs alongside."""
     nm = facts.port['name']
-    clients = [f'K{i}' for i in range(hist['clients'])]
+    from vf import gen_cfg
+    clients = gen_cfg.client_names(hist.get('naming', 'K'), hist['clients'])
     imp = int(not facts.info.create)
     script = [f'locator {imp} {imp} 0 0', 'construct inst'] + [f'client {c} -' for c in clients] + \
         ['bind -', 'final 0']
